@@ -475,7 +475,9 @@ class CHText:
             return self[:desired_len]
         if len_diff > 0:
             return self + " "*len_diff
-        return self
+        # the doc string promises a new object: the caller may go on writing to it
+        # (CHTextResult.fixed_len hands out its memoised text otherwise)
+        return type(self)(self)
 
     def __format__(self, format_spec) -> str:
         """Support formatted printing.
